@@ -1,6 +1,7 @@
 import Ymq.Props.C03
 import Ymq.Props.C03Qs64
 import Ymq.Props.C03Squfof
+import Ymq.Props.C03Rho
 #print axioms Ymq.C03.factor_total
 #print axioms Ymq.C03.factorImpl_total
 #print axioms Ymq.C03.factor_total_of_input
@@ -26,3 +27,14 @@ import Ymq.Props.C03Squfof
 #print axioms Ymq.C03Squfof.squfof_trivial_split_small_primes
 #print axioms Ymq.C03Squfof.squfof_uses_exit
 #print axioms Ymq.C03Squfof.sqOracle_uses_exit
+#print axioms Ymq.C03Rho.rho64_no_panic
+#print axioms Ymq.C03Rho.rho_no_panic
+#print axioms Ymq.C03Rho.rho_no_panic_call_site
+#print axioms Ymq.C03Rho.rho_proper
+#print axioms Ymq.C03Rho.rho_uses_rho64
+#print axioms Ymq.C03Rho.rho_large_none
+#print axioms Ymq.C03Rho.rho_prime_none
+#print axioms Ymq.C03Rho.rho_prime_square
+#print axioms Ymq.C03Rho.rho_semiprime_no_panic
+#print axioms Ymq.C03Rho.rho_semiprime_proper
+#print axioms Ymq.C03Rho.noSmall_below_top
